@@ -40,15 +40,17 @@ def bitmap_sectors(spb):
     return ((spb + 7) // 8 + 511) // 512
 
 
-def build_fixed(nsec, footer_len=512, layer=1):
+def build_fixed(nsec, footer_len=512, layer=1, prefix=b""):
     img = Image("vhd-fixed")
-    img.put_pattern(0, nsec * 512, layer, 0)
+    if prefix:
+        img.put(0, prefix, meta=False)
+    img.put_pattern(len(prefix), nsec * 512 - len(prefix), layer, len(prefix))
     img.put(nsec * 512, footer(nsec * 512, 2, FIXED_OFF, footer_len))
     return img
 
 
-def model_fixed(nsec, layer=1):
-    return RawDisk(pattern.sectors(layer, 0, nsec))
+def model_fixed(nsec, layer=1, prefix=b""):
+    return RawDisk(prefix + pattern.span(layer, len(prefix), nsec * 512 - len(prefix)))
 
 
 def build_dynamic(states, slots, spb, size=None, max_entries=None, layout="std", footer_len=512, layer=1, nslots=None,
